@@ -39,7 +39,7 @@
 (*   DevRedistLocksGathered a multi-batch Redistribute also reserves the   *)
 (*                          outputs gathered for a batch it then dropped   *)
 (***************************************************************************)
-EXTENDS Integers, FiniteSets, TLC
+EXTENDS Integers, FiniteSets, FiniteSetsExt, TLC
 
 CONSTANTS
     Delay,                  \* maturity delay of a miner payout, in blocks
@@ -57,7 +57,6 @@ view  == svars
 
 -----------------------------------------------------------------------------
 (* helpers *)
-Restrict(f, S) == [x \in S |-> f[x]]
 Ids(M) == {o.id : o \in M}
 MaxOf(S) == CHOOSE x \in S : \A y \in S : y <= x
 MinOf(a, b) == IF a < b THEN a ELSE b
@@ -72,10 +71,8 @@ PoolMade == {o \in MadeAll : o.id \notin PoolSpent}  \* DESIGN: poolMade (unconf
 MakerVer(i) == txs[CHOOSE t \in PoolTx : i \in Ids(txs[t].made)].ver
 
 Val(i) == IF i \in DOMAIN owned THEN owned[i].v ELSE (CHOOSE o \in MadeAll : o.id = i).v
-RECURSIVE SumV(_)
-SumV(S) == IF S = {} THEN 0 ELSE LET x == CHOOSE y \in S : TRUE IN Val(x) + SumV(S \ {x})
-RECURSIVE SumM(_)
-SumM(M) == IF M = {} THEN 0 ELSE LET o == CHOOSE y \in M : TRUE IN o.v + SumM(M \ {o})
+SumV(S) == FoldSet(LAMBDA i, acc : acc + Val(i), 0, S)     \* total value of the outputs S
+SumM(M) == FoldSet(LAMBDA o, acc : acc + o.v, 0, M)        \* total value of the made-records M
 
 IsLocked(i) == i \in DOMAIN locked /\ now < locked[i]            \* wallet.go:822-824
 LockedNow == {i \in DOMAIN locked : now < locked[i]}
